@@ -234,10 +234,11 @@ pub fn subs_for(id: &str) -> Vec<Sub> {
                     ..lp(
                         "C20",
                         "c20-printed",
-                        "general plans with unnamed systems (1/8), odd names with spaces, dashes and slashes incl. names that sanitise to the same text (1/8), batches (every nested builder is formatted too) and empty builders; oracle: {:?} does not panic, parses as seq![par![seq![name,]]], has the shape of the executed plan and names the system that really runs at each (stage, group, position), placeholder for unnamed; non-trivial = a builder with >= 2 systems; distinct = plan hash",
+                        "general plans with unnamed systems (1/8), odd names with spaces, dashes and slashes incl. names that sanitise to the same text (1/8), batches (every nested builder is formatted too), empty builders, and rejected duplicate-name registration attempts that the caller catches before going on (1/16 of the ops); oracle: {:?} does not panic, parses as seq![par![seq![name,]]], has the shape of the executed plan and names the system that really runs at each (stage, group, position), placeholder for unnamed; non-trivial = a builder with >= 2 systems; distinct = plan hash",
                         GenCfg {
                             p_odd_name: 4,
                             p_unnamed: 3,
+                            p_rejected: 1,
                             ..GenCfg::default()
                         },
                         600,
